@@ -8,6 +8,9 @@ CHECKS = {
  "C11": dict(level="model_checking", tech="TLA+ spec Registry.tla; TLC invariant DoGet = DocSelect in every reachable state; TLC-generated behaviours replayed into a real BackendRegistry; recorded random executions validated by TLC (Trace_Registry.tla)",
    text="Registry.tla mirrors BackendRegistryState method by method; DocSelect is the documented rule written without memo/seen/registration order. TLC checks in every reachable state of every configuration (framework, priority, eager/on-import, healthy/failing; all registration orders) that every possible lookup equals DocSelect. Behaviours sampled by TLC are executed on a fresh real registry comparing result and full projected state after each step, and random real executions are accepted by TLC only if they are behaviours of the specification satisfying the invariant in every state.",
    note="closed world (registrations precede lookups), distinct names, frameworks other than numpy are synthetic Backend objects with fake modules in sys.modules; bounded: <=3 backends exhaustively (4 by simulation), memo entries explored independently", ref="5 C11"),
+ "C12": dict(level="model_checking", tech="TLA+ spec Parse.tla (token-level transcription of parse_op and tree normal forms); TLC checks totality, space-invariance and print/re-read round trip on every token sequence up to the bound; outcomes recorded from the real parser validated by TLC (Trace_Parse.tla)",
+   text="Parse.tla is a total function from token sequences to tree-or-syntax-error, structured like parse_op (dedup spaces, nesting, operator precedence, ellipsis, move-up of '->' and ',', bracket normalisation, consistency checks). TLC enumerates every token sequence up to the length bound and proves on the specification that redundant spaces never change the verdict or tree and that every accepted tree prints back into the notation and re-reads to itself. The real parser is bound to the specification by recording its outcome on every one of those strings (plus random strings over arbitrary characters) and letting TLC compare verdict and tree; other exception classes, messages that do not quote the caller's string, carets outside it and failing real round trips are violations by themselves.",
+   note="exhaustive up to 5 (quick) / 6 (thorough) tokens over 2 names, numbers 0/1, one junk token; longer strings by seeded random sampling; the harness lexer that maps random strings to tokens follows parse.py's literal order", ref="5 C12"),
 }
 NA_REASON = "check not built yet (work in progress, see DESIGN.md section 9)"
 ids = [json.loads(l)["id"] for l in open("/verif/properties.jsonl")]
